@@ -114,10 +114,18 @@ theorem prevOK_step (cfg : Cfg) (hp : cfg.prevFix = true) (pm : Perm) (a : A) (a
   case ev e =>
     cases e <;> refine ⟨?_⟩ <;> simp only [Act.apply, Core.event] <;> first | exact h | (split <;> exact h)
   case clock inc => refine ⟨?_⟩; simp only [Act.apply, Core.clock]; split <;> exact h
+  case error =>
+    refine ⟨?_⟩
+    simp only [Act.apply, Core.setError]
+    split
+    · intro v hv; simp at hv ⊢; exact hv
+    · exact h
   all_goals exact ⟨h⟩
 
-theorem prevOK_init (cfg : Cfg) (outs : List Int) : PrevOK (abs (init cfg outs)) :=
-  ⟨fun v hv => by simp [abs, init] at hv⟩
+theorem prevOK_init (cfg : Cfg) (outs : List Int) : PrevOK (abs (init cfg outs)) := by
+  refine ⟨fun v hv => ?_⟩
+  unfold init at hv
+  split at hv <;> simp [abs] at hv
 
 /-- Every state at which the engine performs an action in any operation sequence — in particular every
     state in which an Unpause body runs — satisfies the invariant. -/
